@@ -16,6 +16,7 @@ import (
 	"math/big"
 	"os"
 	"path/filepath"
+	"strings"
 	"sync"
 
 	cose "github.com/veraison/go-cose"
@@ -87,7 +88,7 @@ func loadFixtures() {
 				fatal("fixtures rsa %s: %v", bits, err)
 			}
 			rk := k.(*rsa.PrivateKey)
-			if fmt.Sprint(rk.N.BitLen()) != bits {
+			if want := strings.SplitN(bits, "e", 2)[0]; fmt.Sprint(rk.N.BitLen()) != want { // "2048e3": 2048 bits, public exponent 3
 				fatal("fixtures rsa %s has %d bits", bits, rk.N.BitLen())
 			}
 			rsaKeys["rsa"+bits] = rk
